@@ -17,7 +17,9 @@ CFG = dict(
     rule="five streams on the real code: (idx, 40%) histories of 10-35 calls of UpdateLabels/DeleteLabels/UpdateParentLabels/"
          "DeleteParentLabels/UpdateSelector/DeleteSelector on the real InheritIndex over 2-4 items, 1-3 parents, 2-4 selector ids, "
          "labels a,b,c with values x,y,z,xy,yx (own labels overriding inherited ones, nil/empty/non-empty parent label maps, duplicate "
-         "parent ids, re-sent unchanged selectors); (restr, 20%) selectors built by the real parser (all node types, nesting <= 3, "
+         "parent ids, re-sent unchanged selectors; 45% of them are 'contested label' histories: 2-3 parents set the SAME label to DIFFERENT values, items leave "
+         "that label to their parents, selectors tell the values apart, and UpdateLabels calls change ONLY the order or the multiplicity of an item's "
+         "parent ids ([p,q]->[q,p], [p,p,q]->[p,q,q], [p,p]->[p,q]) with identical own labels, both selector-first and endpoint-first); (restr, 20%) selectors built by the real parser (all node types, nesting <= 3, "
          "empty sets, !has, negated groups) with their real LabelRestrictions() and real Evaluate on 8 label maps; (ri, 10%) "
          "AddSelector/DeleteSelector/AllPotentialMatches histories on the real LabelRestrictionIndex; (nv, 10%) Add/Remove/"
          "StrategyFor+Scan histories on the real LabelNameValueIndex; (np, 20%) UpdateEndpointOrSet/DeleteEndpoint/UpdateParentLabels/"
